@@ -1009,7 +1009,15 @@ func (r *Raft) leadershipTransfer(id ServerID, address ServerAddress, repl *foll
 	for atomic.LoadUint64(&repl.nextIndex) <= r.getLastIndex() {
 		err := &deferError{}
 		err.init()
-		repl.triggerDeferErrorCh <- err
+		// The replication routine may be busy (or gone, if we have stepped down
+		// meanwhile), so this hand-off has to be abortable as well: otherwise we
+		// never report back on doneCh and the transfer stays "in progress" for ever.
+		select {
+		case repl.triggerDeferErrorCh <- err:
+		case <-stopCh:
+			doneCh <- nil
+			return
+		}
 		select {
 		case err := <-err.errCh:
 			if err != nil {
